@@ -7,6 +7,9 @@ R6.tables      ASTSerializer::{serialize, deserialize} use the same crate per va
 R6.select      explicit --format wins, else the path's extension, else INTERNAL / none.
 R6.samecompile the compile action and run call the same bytecode::compile.
 R6.sinks       the parse action writes exactly the serialized AST (complete write).
+R6.handoff     in every CLI action the value a stage produces is the value the next stage receives (parse → serialize,
+               deserialize → compile → write, parse → compile → evaluate, load → evaluate): nothing rewrites, filters or
+               re-derives the program between two stages.
 R6.depth       stage-boundary deserialisation of the recursive AST must not impose a nesting bound run lacks.
 """
 from .. import anchors as A
@@ -46,6 +49,86 @@ def call_table(fx, body):
             return out
     return out
 
+
+
+HANDOFF = {
+    # action role: the stages in order, (suffix of the callee path, what it is)
+    "cli.parse": [("TopLevelParser::parse", "the parser"), ("ASTSerializer::serialize", "the AST writer")],
+    "cli.compile": [("ASTSerializer::deserialize", "the AST reader"), ("bytecode::compile", "the compiler"), ("BCSerializer::serialize", "the bytecode writer")],
+    "cli.run": [("TopLevelParser::parse", "the parser"), ("bytecode::compile", "the compiler"), ("interpreter::evaluate_with_memory_config", "the VM")],
+    "cli.interpret": [("BCSerializer::deserialize", "the bytecode reader"), ("interpreter::evaluate_with_memory_config", "the VM")],
+}
+
+
+def _handoff(ck, fx):
+    """Each action is executed symbolically with its stages kept opaque (helpers of the action inlined): on the path
+    where everything succeeds, the argument a stage receives must be *the value the previous stage returned* — its
+    payload after `expect`/`?`, possibly borrowed — and every stage runs exactly once."""
+    from ..symex import Executor, Client, State
+
+    stages = {sfx for chain in HANDOFF.values() for sfx, _ in chain}
+
+    class HC(Client):
+        name = "handoff"
+        inline_depth = 3
+
+        def no_inline(self, path):
+            return any(path.endswith(x) for x in stages)
+
+    def strip(t):
+        while isinstance(t, tuple) and t and (t[0] == "payload" or (t[0] == "app" and t[1] in ("ref", "deref", "clone", "as_ref", "borrow", "unwrap", "expect") and len(t[2]) >= 1)):
+            t = t[1] if t[0] == "payload" else t[2][0]
+        return t
+
+    def label(t):
+        if isinstance(t, tuple) and t[:1] == ("sym",) and isinstance(t[2], str) and t[2].startswith("ret:"):
+            return t[2][4:]
+        if isinstance(t, tuple) and t[:1] == ("fall",):
+            return t[3]
+        return None
+
+    n = 0
+    for role, chain in sorted(HANDOFF.items()):
+        b = fx.body(A.get(role))
+        if not ck.anchor("R6.handoff", A.get(role), b):
+            continue
+        ck.fn(b["path"])
+        try:
+            res = Executor(fx, HC()).run_body(b, [("var", "self")], State())
+        except Exception as e:  # noqa
+            ck.ob("R6.handoff", "%s|stages" % b["path"], False, loc(b), "cannot execute the action symbolically (unprovable): %s" % str(e)[:160])
+            continue
+        oks = [(st, o) for st, o in res if o[0] in ("val", "ret") and not any(e["k"] == "assume_fail" for e in st.eff)]
+        if not oks:
+            ck.ob("R6.handoff", "%s|stages" % b["path"], False, loc(b), "no path on which every step succeeds")
+            continue
+        verdicts = {}
+        for pi, (st, o) in enumerate(oks):
+            calls = [e for e in st.eff if e["k"] == "call"]
+            prev = None
+            for sfx, what in chain:
+                mine = [e for e in calls if e["args"][0][1].endswith(sfx)]
+                short = sfx.rsplit("::", 1)[-1]
+                same_label = [e for e in calls if e["args"][0][1].rsplit("::", 1)[-1] == short]
+                key = "%s|%s" % (b["path"], what)
+                if len(mine) != 1 or len(same_label) != 1:
+                    verdicts.setdefault(key, []).append((False, loc(b), "%s (%s) runs %d time(s) on a successful path (%d call(s) named `%s`): expected exactly once" % (what, sfx, len(mine), len(same_label), short)))
+                    break
+                if prev is None:
+                    verdicts.setdefault(key, []).append((True, mine[0].get("at") or loc(b), "runs exactly once on every successful path"))
+                else:
+                    got = [label(strip(a)) for a in mine[0]["args"][1:]]
+                    ok = prev in got
+                    verdicts.setdefault(key, []).append((ok, mine[0].get("at") or loc(b),
+                          "receives exactly what `%s` returned" % prev if ok else
+                          "%s is not handed the value `%s` returned: its arguments are %s — the program is rewritten between two stages, so the staged pipeline and `run` no longer process the same program" % (what, prev, "; ".join(fmt_term(a)[:120] for a in mine[0]["args"][1:]))))
+                prev = short
+        for key, vs in sorted(verdicts.items()):
+            bad = [v for v in vs if not v[0]]
+            n += 1
+            v = bad[0] if bad else vs[0]
+            ck.ob("R6.handoff", key, not bad, v[1], v[2] + " (%d successful path(s))" % len(vs))
+    ck.floor("R6.handoff", "stage calls examined", n, 10)
 
 def _verbatim(ck, fx):
     """What `serialize` returns is the text the format crate produced for exactly this AST (plus, at most, trailing
@@ -265,6 +348,8 @@ def run(ck, fx, cg, tier):
         b = fx.body(A.get("compile.pub"))
         direct = b and [callee_name(n) for n, ps in walk_body(b) if n.get("k") in ("Call", "MethodCall") and n.get("callee")] == [A.get("compile")]
         ck.ob("R6.samecompile", "bytecode::compile = compiler::compile", bool(direct), loc(b) if b else "", "thin forwarder: %s" % bool(direct))
+    # ---------------------------------------------------------------- hand-off between stages
+    _handoff(ck, fx)
     # ---------------------------------------------------------------- sinks
     pa = fx.body(A.get("cli.parse"))
     if ck.anchor("R6.sinks", "ParserAction::parse", pa):
